@@ -670,7 +670,7 @@ def _build(spec, variant=None):
         if c['atom'] in ('expsum', 'logsum') and rng.random() < 0.5:
             inner = rso.exp(mat(c['M'], c['v'])) if c['atom'] == 'expsum' else \
                 rso.log(mat(c['M'], c['v']))
-            e = (c['mult'] * inner).sum() + e
+            e = AT._sum1d(c['mult'] * inner, inner) + e
         else:
             r_ = rng.random()
             if r_ < 0.35:
@@ -706,7 +706,7 @@ def cvx_constraint(rso, B, c, rng=None):
         # (mult*exp(u)).sum() instead of mult*exp(u).sum()
         inner = rso.exp(B.mat(c['M'], c['v'])) if c['atom'] == 'expsum' else \
             rso.log(B.mat(c['M'], c['v']))
-        at = (mult * inner).sum()
+        at = AT._sum1d(mult * inner, inner)
         mult = 1.0
     g = np.array(c['g'], float)
     if g.ndim == 1:
